@@ -12,7 +12,7 @@ except ImportError:  # pragma: no cover
 from sa import dsl, guards as G
 from sa.flow import GuardMap, Provenance
 from sa.pytexts import accumulate_paths, returned_texts
-from sa.repo import AnchorError, call_name, calls_in, dotted, norm, walk_no_nested, kwarg
+from sa.repo import ordk, AnchorError, call_name, calls_in, dotted, norm, walk_no_nested, kwarg
 from sa.vendors import load_rule_texts, load_vendors
 from rules import c01
 
@@ -265,7 +265,7 @@ def r1(c):
     if missing:
         raise AnchorError(f"compile_row_regexp: macros not located: {missing} (function restructured)")
     # order: */re/ must be expanded before the plain star
-    c.check("C07.R1", found["star_re"].lineno < found["star"].lineno and found["paren"].lineno < found["star_re"].lineno, repo.loc(m, found["star"]),
+    c.check("C07.R1", ordk(found["star_re"]) < ordk(found["star"]) and ordk(found["paren"]) < ordk(found["star_re"]), repo.loc(m, found["star"]),
             "compile_row_regexp/order", "macro order changed: user parens must be neutralised first, then `*/re/`, then plain `*`", key_text="order")
 
     def ren(s):
@@ -673,15 +673,21 @@ def r5(c):
     inner = [r for r in rets if isinstance(r.value, ast.Name)]
     ok = len(inner) == 1
     if ok:
-        f = gm.formula(inner[0])
-        ok = any(a.replace(" ", "") in ("depth==len(cmd_path)-1", "len(cmd_path)-1==depth") for a in G.atoms(f)) and \
-            G.implies(f, G.Atom([a for a in G.atoms(f) if "depth" in a][0]))
+        f = gm.formula(inner[0], alias=True)
+        # depth == len(cmd_path) - 1, in any linear spelling
+        want = G.linear_relation(ast.parse("depth == len(cmd_path) - 1", mode="eval").body)
+        depth_atoms = []
+        for t, pol in gm.of(inner[0]):
+            for x in ast.walk(t):
+                if isinstance(x, ast.Compare) and G.linear_relation(x) == want:
+                    depth_atoms.append(x)
+        ok = bool(depth_atoms) and any(G.implies(f, G.formula(x, G.GuardEnv())) for x in depth_atoms)
         ok = ok and any(".match(row)" in a for a in G.atoms(f))
     c.check("C07.R5", ok, repo.loc(m, inner[0] if inner else fn), "match_deploy_rule/return-depth", "a rule is returned other than for the last element of the command path after matching every level", key_text="depth")
     desc = [n for n in walk_no_nested(fn) if isinstance(n, ast.Assign) and norm(n.targets[0]) == "rules" and "children" in norm(n.value)]
     c.check("C07.R5", bool(desc), repo.loc(m, fn), "match_deploy_rule/descend", "the search does not descend into the matched rule's children", key_text="descend")
     dflt = [r for r in rets if isinstance(r.value, ast.Dict)]
-    ok = bool(dflt) and "DEFAULT_TIMEOUT" in norm(dflt[0].value) and dflt[0] is fn.body[-1]
+    ok = bool(dflt) and "DEFAULT_TIMEOUT" in norm(dflt[0].value) and dflt[0] is [st for st in fn.body if not isinstance(st, ast.Pass)][-1]
     c.check("C07.R5", ok, repo.loc(m, fn), "match_deploy_rule/default", "the fallback is not the default rule with DEFAULT_TIMEOUT", key_text="default")
 
 
